@@ -6,7 +6,7 @@ QUICK = ["msp430", "6502", "8051", "avr8", "z80", "stm8", "riscv", "lc3", "6800"
 
 # CPUs whose decoders showed violations / did not finish in the first thorough sweep; they are triaged one by one
 # (see triage/ and DESIGN.md) and are not part of the registered tiers until then
-PENDING = {"6809", "86000", "arm64", "epiphany", "pdp8"}
+PENDING = {"pdp8"}
 
 
 def jobs(tier, names=None):
